@@ -134,6 +134,12 @@ def fixed_cases():
         yield {'v': ['tcmt', 'empty namespace', ['call', 'ns', [], []]], 'width': w, 'ribbon': w, 'indent': 4}
     # sort_dict_keys with comments on keys (a comment does not change where a key sorts) and on values
     for w in (79, 12):
+        two = lambda k, i: ['cmt', 'above %d' % i, ['tcmt', 'after %d' % i, k]]
+        yield {'v': ['dict', [[two(['tuple', [['int', 2], ['int', 0]]], 1), ['int', 1]], [['tuple', [['int', 1], ['int', 5]]], ['int', 2]], [two(['tuple', [['int', 3]]], 2), ['int', 3]],
+                              [['tcmt', 'only after', ['tuple', [['int', 0], ['int', 9]]]], ['int', 4]]]],
+               'width': w, 'ribbon': w, 'indent': 4, 'sort': True}
+        yield {'v': ['dict', [[two(['str', 'b'], 1), ['int', 1]], [['str', 'a'], ['int', 2]], [two(['str', 'c'], 2), ['int', 3]], [['str', 'aa'], ['int', 0]]]],
+               'width': w, 'ribbon': w, 'indent': 4, 'sort': True}
         yield {'v': ['dict', [[['cmt', 'note b', ['str', 'b']], ['int', 1]], [['str', 'a'], ['int', 2]], [['cmt', 'note c', ['str', 'c']], ['cmt', 'val', ['int', 3]]], [['str', 'aa'], ['int', 0]]]],
                'width': w, 'ribbon': w, 'indent': 4, 'sort': True}
         yield {'v': ['list', [['dict', [[['cmt', 'three', ['int', 3]], ['int', 1]], [['int', 1], ['tcmt', 'tc', ['list', [['int', 2]]]]], [['cmt', 'two', ['int', 2]], ['int', 0]]]]]],
